@@ -18,6 +18,7 @@ FIELD_OF = {
     "self.extra_sort_info": "FExtra",
     "self.type.value": "FType",
     "self.tag_score": "FTag",
+    "self.filename if isinstance(self.filename, str) else ''": "FFile",
 }
 
 
@@ -308,7 +309,7 @@ def gen_c03_consts() -> str:
     py_tag_parse()
     b = T.HEADER
     b += "(* C03: read from req_compile/repos/repository.py and req_compile/utils.py *)\n"
-    b += "Inductive field := FVersion | FExtra | FType | FTag.\n"
+    b += "Inductive field := FVersion | FExtra | FType | FTag | FFile.\n"
     b += "Inductive kind := Wheel | Sdist | Source.\n"
     b += "Definition sortkey_fields : list field := " + T.coq_list(fields) + ".\n"
     b += "Definition sort_reverse : bool := " + ("true" if rev else "false") + ".\n"
